@@ -137,7 +137,7 @@ Record mst := {
   pool : list (list nat);             (* shared_components_[sid]: instances created so far *)
   insts : list (nat * Z);             (* every shared instance ever made: (sid, value) *)
   wv : N;                             (* World::version_ *)
-  cached : option N;                  (* EntityManager::world_version_ (indeterminate before the first update) *)
+  cached : option N;                  (* EntityManager::world_version_: World::version() at construction, refreshed by update() *)
   def_chunk : nat;
   chunk_fns : list (nat * nat * mask);
   cinfos : list cinfo;
@@ -148,7 +148,7 @@ Record mst := {
 
 Definition init (nthr : nat) (cis : list cinfo) : mst :=
   {| slots := []; locs := []; next_slot := 0; empty_slots := 0; archs := []; lockc := 0; next_eid := 0;
-     bufs := []; tmps := []; marked := []; deps := []; pool := []; insts := []; wv := 0; cached := None;
+     bufs := []; tmps := []; marked := []; deps := []; pool := []; insts := []; wv := 0; cached := Some 0;
      def_chunk := 1024; chunk_fns := []; cinfos := cis; nthreads := nthr; epoch := 0; log := [] |}.
 
 (* setters *)
